@@ -49,7 +49,7 @@ func runScenario(sc *conc.Scenario, copies, rounds int) (mismatch string) {
 		}
 		close(start)
 		wg.Wait()
-		if sc.Fresh {
+		if sc.Fresh || sc.Late {
 			expected = w.ExpectedAfter()
 		}
 		for _, s := range slots {
